@@ -933,10 +933,10 @@ theorem foldl_mergeStepM_sorted (hswo : SWO lt) (vs : List α) :
 
 /-- the body of the loop of `merge(FlatSet<T, C2, …>&)` is one `insert_val` -/
 theorem merge_other_step_eq (lt : α → α → Bool) (l : List α) (x : α) :
-    Gen.FlatSet.merge_other_step lt l x
+    Gen.FlatSet.merge_other_merge_by_insertion_step lt l x
       = some ((insertValC lt l x).1, (insertValC lt l x).2.2.1, (insertValC lt l x).2.2.2) := by
   have hle := lowerBound_le lt l x 0 l.length
-  unfold Gen.FlatSet.merge_other_step insertValC
+  unfold Gen.FlatSet.merge_other_merge_by_insertion_step insertValC
   generalize lowerBound lt l x 0 l.length = p at hle
   obtain ⟨i, c⟩ := p
   simp only at hle ⊢
@@ -948,7 +948,7 @@ theorem merge_other_step_eq (lt : α → α → Bool) (l : List α) (x : α) :
 
 theorem foldErase_eq (hswo : SWO lt) (vs : List α) :
     ∀ (l kept : List α), Sorted lt l →
-      ∃ c, Gen.FlatSet.foldErase (Gen.FlatSet.merge_other_step lt) vs l kept
+      ∃ c, Gen.FlatSet.foldErase (Gen.FlatSet.merge_other_merge_by_insertion_step lt) vs l kept
         = some ((vs.foldl (mergeStepM lt) (l, kept)).1, (vs.foldl (mergeStepM lt) (l, kept)).2, c) := by
   induction vs with
   | nil => intro l kept _; exact ⟨0, rfl⟩
@@ -1173,17 +1173,41 @@ theorem merge_loop_spec (hswo : SWO lt) (lt_o : α → α → Bool) (n : Nat) :
           simp only [List.append_assoc, List.singleton_append]
           exact ⟨_, _, _, _, _, rfl⟩
 
-/-- `merge(FlatSet&)` (flatset.hpp:358) -/
-theorem merge_eq (hswo : SWO lt) (l : List α) (hs : Sorted lt l) (lt_o : α → α → Bool) (o : List α) (ho : Sorted lt o) :
-    ∃ c, Gen.FlatSet.merge lt l lt_o o = some ((mergeFrom lt l o).1, (mergeFrom lt l o).2, (), c) := by
-  obtain ⟨f1, e1, f2, e2, c, hc⟩ := merge_loop_spec hswo lt_o (l.length + o.length + 1) [] l [] o (by omega)
-    (by simpa using hs) ho (by intro a ha; cases ha)
-  simp only [mstate, List.nil_append, List.length_nil, Nat.zero_add] at hc
-  refine ⟨c, ?_⟩
-  unfold Gen.FlatSet.merge
-  have : (fun s : List α × List α × Nat × Nat × Nat × Nat =>
-      Gen.FlatSet.merge_step lt s.1 lt_o s.2.1 s.2.2.1 s.2.2.2.1 s.2.2.2.2.1 s.2.2.2.2.2) = mstep lt lt_o := rfl
-  rw [this, hc]
-  rfl
+/-- the insertion loop inlined into `merge(FlatSet&)` is, textually, the one inlined into `merge(FlatSet<T, C2, …>&)` -/
+theorem merge_ins_step_eq (lt : α → α → Bool) :
+    Gen.FlatSet.merge_merge_by_insertion_step lt = Gen.FlatSet.merge_other_merge_by_insertion_step lt := rfl
+
+/-- `merge(FlatSet&)`: with a stateless comparator type the two-pointer loop, which needs the other set to be ordered by the
+    comparator object of `*this`; with a comparator type that carries state the insertion loop, which does not (before the repair
+    of V25 the two-pointer loop ran in both cases and `Sorted lt o` was needed unconditionally) -/
+theorem merge_eq (hswo : SWO lt) (l : List α) (hs : Sorted lt l) (lt_o : α → α → Bool) (o : List α) (stateless : Bool)
+    (ho : stateless = true → Sorted lt o) :
+    ∃ c, Gen.FlatSet.merge lt l lt_o o stateless = some ((mergeFrom lt l o).1, (mergeFrom lt l o).2, (), c) := by
+  cases stateless with
+  | true =>
+    obtain ⟨f1, e1, f2, e2, c, hc⟩ := merge_loop_spec hswo lt_o (l.length + o.length + 1) [] l [] o (by omega)
+      (by simpa using hs) (ho rfl) (by intro a ha; cases ha)
+    simp only [mstate, List.nil_append, List.length_nil, Nat.zero_add] at hc
+    refine ⟨c, ?_⟩
+    unfold Gen.FlatSet.merge
+    have : (fun s : List α × List α × Nat × Nat × Nat × Nat =>
+        Gen.FlatSet.merge_step lt s.1 lt_o s.2.1 s.2.2.1 s.2.2.2.1 s.2.2.2.2.1 s.2.2.2.2.2) = mstep lt lt_o := rfl
+    rw [this]
+    simp only [if_true]
+    rw [hc]
+    rfl
+  | false =>
+    obtain ⟨c, hc⟩ := foldErase_eq hswo o l [] hs
+    refine ⟨c, ?_⟩
+    unfold Gen.FlatSet.merge
+    rw [merge_ins_step_eq, hc]
+    rfl
+
+/-- all objects of a stateless comparator type compare alike: the other set, ordered by its own comparator object, is then
+    ordered by the one of `*this`, and `merge(FlatSet&)` needs nothing but the invariants of the two sets -/
+theorem merge_eq_inv (hswo : SWO lt) (l : List α) (hs : Sorted lt l) (lt_o : α → α → Bool) (o : List α) (stateless : Bool)
+    (ho : Sorted lt_o o) (hst : stateless = true → lt_o = lt) :
+    ∃ c, Gen.FlatSet.merge lt l lt_o o stateless = some ((mergeFrom lt l o).1, (mergeFrom lt l o).2, (), c) :=
+  merge_eq hswo l hs lt_o o stateless (fun h => hst h ▸ ho)
 
 end AmcVerif.Bridge.FlatSet
